@@ -5,21 +5,51 @@ Import ListNotations.
 
 Definition no_bsl (m : text) : bool := forallb (fun c => negb (c =? c_bsl)%N) m.
 
-Lemma map_escapes_no_bsl : forall pe m x, no_bsl m = true ->
-  map_escapes pe (m ++ x) = m ++ map_escapes pe x.
+Lemma map_escapes_no_bsl : forall kw pe m x, no_bsl m = true ->
+  map_escapes kw pe (m ++ x) = m ++ map_escapes kw pe x.
 Proof.
-  induction m as [|c m IH]; intros x H; simpl; [reflexivity|].
+  intros kw pe. induction m as [|c m IH]; intros x H; simpl; [reflexivity|].
   simpl in H. apply andb_true_iff in H. destruct H as [Hc Hm].
   apply negb_true_iff in Hc. rewrite Hc. rewrite IH by assumption. reflexivity.
 Qed.
 
-Lemma map_escapes_plain : forall pe c x, (c =? c_bsl)%N = false ->
-  map_escapes pe (c :: x) = c :: map_escapes pe x.
-Proof. intros pe c x H. simpl. rewrite H. reflexivity. Qed.
+Lemma map_escapes_plain : forall kw pe c x, (c =? c_bsl)%N = false ->
+  map_escapes kw pe (c :: x) = c :: map_escapes kw pe x.
+Proof. intros kw pe c x H. simpl. rewrite H. reflexivity. Qed.
 
-Lemma map_escapes_pair : forall pe c2 x,
-  map_escapes pe (c_bsl :: c2 :: x) = esc_image pe c2 x ++ map_escapes pe x.
+Lemma map_escapes_pair : forall kw pe c2 x,
+  map_escapes kw pe (c_bsl :: c2 :: x) = esc_image kw pe c2 x ++ map_escapes kw pe x.
 Proof. reflexivity. Qed.
+
+(* ---- the declarative image, in the order in which the scanner tests ---- *)
+Definition esc_image_op (kw pe : bool) (c : N) (rest : text) : text :=
+  if (c =? c_b)%N then (if pe then [92; 120; 48; 56]%N else [92; 98]%N)
+  else if is_meta_character c || lex_esc_literal (c :: rest) || ws_kept kw c then [c_bsl; c]
+  else if ws_special kw c then [92; 120; 123]%N ++ hex_upper c ++ [125]%N
+  else [c].
+
+Lemma mem_bound : forall c l b, mem c l = true -> forallb (fun x => (x <? b)%N) l = true -> (c <? b)%N = true.
+Proof.
+  intros c l b. unfold mem. induction l as [|x l IH]; intros Hm Hb; [discriminate|].
+  simpl in Hm, Hb. apply andb_true_iff in Hb. destruct Hb as [Hx Hl].
+  apply orb_true_iff in Hm. destruct Hm as [Hm|Hm].
+  - apply N.eqb_eq in Hm. subst x. exact Hx.
+  - apply IH; assumption.
+Qed.
+
+Lemma meta_ascii : forall c, is_meta_character c = true -> (c <? 128)%N = true.
+Proof. intros c H. eapply mem_bound; [exact H|reflexivity]. Qed.
+
+Lemma esc_image_eq : forall kw pe c rest, esc_image kw pe c rest = esc_image_op kw pe c rest.
+Proof.
+  intros kw pe c rest. unfold esc_image, esc_image_op, lex_special, rx_special, rx_escape, ws_kept, ws_special.
+  destruct (c =? c_b)%N; [reflexivity|].
+  destruct (lex_esc_literal (c :: rest)); [rewrite orb_true_r; reflexivity|]. rewrite orb_false_r.
+  destruct (is_meta_character c) eqn:Em.
+  - rewrite (meta_ascii c Em). reflexivity.
+  - cbn [orb]. destruct (kw && is_rx_ws c); [|rewrite andb_false_r; reflexivity].
+    rewrite andb_true_r. destruct (c <? 128)%N; reflexivity.
+Qed.
 
 Lemma len_bsl : len_utf8 c_bsl = 1.
 Proof. reflexivity. Qed.
@@ -28,44 +58,47 @@ Lemma len_b : len_utf8 c_b = 1.
 Proof. reflexivity. Qed.
 
 (* ---- one round of 'outer ---- *)
-Lemma unescape_step_spec : forall pe re p m c it2 unesc,
+Lemma unescape_step_spec : forall kw pe re p m c it2 unesc,
   re = p ++ m ++ [c_bsl; c] ++ it2 ->
-  unescape_step re unesc (byte_len p) (byte_len (p ++ m)) (c :: it2) (byte_len (p ++ m) + 1) c pe
-  = Done (unesc ++ m ++ esc_image pe c it2, byte_len (p ++ m ++ [c_bsl; c])).
+  unescape_step kw re unesc (byte_len p) (byte_len (p ++ m)) (c :: it2) (byte_len (p ++ m) + 1) c pe
+  = Done (unesc ++ m ++ esc_image kw pe c it2, byte_len (p ++ m ++ [c_bsl; c])).
 Proof.
-  intros pe re p m c it2 unesc ->. unfold unescape_step, esc_image.
+  intros kw pe re p m c it2 unesc ->. rewrite esc_image_eq. unfold unescape_step, esc_image_op.
   assert (Hl : byte_len (p ++ m ++ [c_bsl; c]) = byte_len (p ++ m) + 1 + len_utf8 c).
   { rewrite !byte_len_app. cbn [byte_len]. rewrite len_bsl. lia. }
   destruct (c =? c_b)%N eqn:Eb.
   - apply N.eqb_eq in Eb. subst c.
     rewrite (slice_app p m ([c_bsl; c_b] ++ it2)) by (rewrite ?byte_len_app; lia).
     cbn [obind]. rewrite Hl. rewrite len_b. repeat f_equal; try lia.
-  - destruct (is_meta_character c || lex_esc_literal (c :: it2)) eqn:Ek.
+  - destruct (is_meta_character c || lex_esc_literal (c :: it2) || ws_kept kw c) eqn:Ek.
     + replace (p ++ m ++ [c_bsl; c] ++ it2) with (p ++ (m ++ [c_bsl; c]) ++ it2)
         by (rewrite <- !app_assoc; reflexivity).
       rewrite (slice_app p (m ++ [c_bsl; c]) it2);
         [| reflexivity | rewrite !byte_len_app; cbn [byte_len]; rewrite len_bsl; lia ].
       cbn [obind]. rewrite Hl. repeat f_equal; try lia.
-    + rewrite (slice_app p m ([c_bsl; c] ++ it2)) by (rewrite ?byte_len_app; lia).
-      cbn [obind].
-      replace (p ++ m ++ [c_bsl; c] ++ it2) with ((p ++ m ++ [c_bsl]) ++ [c] ++ it2)
-        by (rewrite <- !app_assoc; reflexivity).
-      rewrite (slice_app (p ++ m ++ [c_bsl]) [c] it2);
-        [| rewrite !byte_len_app; cbn [byte_len]; rewrite len_bsl; lia
-         | rewrite !byte_len_app; cbn [byte_len]; rewrite len_bsl; lia ].
-      cbn [obind]. rewrite Hl. reflexivity.
+    + destruct (ws_special kw c) eqn:Ew.
+      * rewrite (slice_app p m ([c_bsl; c] ++ it2)) by (rewrite ?byte_len_app; lia).
+        cbn [obind]. rewrite Hl. reflexivity.
+      * rewrite (slice_app p m ([c_bsl; c] ++ it2)) by (rewrite ?byte_len_app; lia).
+        cbn [obind].
+        replace (p ++ m ++ [c_bsl; c] ++ it2) with ((p ++ m ++ [c_bsl]) ++ [c] ++ it2)
+          by (rewrite <- !app_assoc; reflexivity).
+        rewrite (slice_app (p ++ m ++ [c_bsl]) [c] it2);
+          [| rewrite !byte_len_app; cbn [byte_len]; rewrite len_bsl; lia
+           | rewrite !byte_len_app; cbn [byte_len]; rewrite len_bsl; lia ].
+        cbn [obind]. rewrite Hl. reflexivity.
 Qed.
 
 (* ---- the rest of the scan ---- *)
-Lemma unescape_rest_spec : forall fixd pe re n it p m unesc,
+Lemma unescape_rest_spec : forall fixd kw pe re n it p m unesc,
   length it <= n ->
   re = p ++ m ++ it -> no_bsl m = true ->
-  match unescape_rest fixd re it (byte_len (p ++ m)) unesc (byte_len p) pe with
-  | Done r => fixd = true \/ dangling it = false -> r = unesc ++ m ++ map_escapes pe it
+  match unescape_rest fixd kw re it (byte_len (p ++ m)) unesc (byte_len p) pe with
+  | Done r => fixd = true \/ dangling it = false -> r = unesc ++ m ++ map_escapes kw pe it
   | _ => False
   end.
 Proof.
-  intros fixd pe re n. induction n as [|n IH]; intros it p m unesc Hn Hre Hm.
+  intros fixd kw pe re n. induction n as [|n IH]; intros it p m unesc Hn Hre Hm.
   - destruct it; [|simpl in Hn; lia]. rewrite app_nil_r in Hre. subst re.
     cbn [unescape_rest].
     rewrite slice_from_app. cbn [obind]. intros _. simpl. rewrite !app_nil_r. reflexivity.
@@ -78,13 +111,13 @@ Proof.
         -- destruct fixd.
            ++ rewrite Hre. rewrite slice_from_app. cbn [obind]. intros _. reflexivity.
            ++ intros [H|H]; [discriminate|]. simpl in H. discriminate.
-        -- rewrite (unescape_step_spec pe re p m c2 it2 unesc) by (rewrite Hre; reflexivity).
+        -- rewrite (unescape_step_spec kw pe re p m c2 it2 unesc) by (rewrite Hre; reflexivity).
            cbn [obind fst snd].
            replace (byte_len (p ++ m) + 1 + len_utf8 c2) with (byte_len ((p ++ m ++ [c_bsl; c2]) ++ []))
              by (rewrite !byte_len_app; cbn [byte_len]; rewrite len_bsl; lia).
-           assert (IH' := IH it2 (p ++ m ++ [c_bsl; c2]) [] (unesc ++ m ++ esc_image pe c2 it2)).
-           destruct (unescape_rest fixd re it2 (byte_len ((p ++ m ++ [c_bsl; c2]) ++ []))
-                       (unesc ++ m ++ esc_image pe c2 it2) (byte_len (p ++ m ++ [c_bsl; c2])) pe) as [r| |].
+           assert (IH' := IH it2 (p ++ m ++ [c_bsl; c2]) [] (unesc ++ m ++ esc_image kw pe c2 it2)).
+           destruct (unescape_rest fixd kw re it2 (byte_len ((p ++ m ++ [c_bsl; c2]) ++ []))
+                       (unesc ++ m ++ esc_image kw pe c2 it2) (byte_len (p ++ m ++ [c_bsl; c2])) pe) as [r| |].
            ++ intros Hd. rewrite IH'.
               ** rewrite map_escapes_pair. rewrite <- !app_assoc. reflexivity.
               ** simpl in Hn. lia.
@@ -98,7 +131,7 @@ Proof.
         assert (IH' := IH it1 p (m ++ [c]) unesc).
         assert (Hm' : no_bsl (m ++ [c]) = true).
         { unfold no_bsl. rewrite forallb_app. fold (no_bsl m). rewrite Hm. simpl. rewrite Ec. reflexivity. }
-        destruct (unescape_rest fixd re it1 (byte_len (p ++ m ++ [c])) unesc (byte_len p) pe) as [r| |].
+        destruct (unescape_rest fixd kw re it1 (byte_len (p ++ m ++ [c])) unesc (byte_len p) pe) as [r| |].
         -- intros Hd. rewrite IH'.
            ++ rewrite map_escapes_plain by assumption. rewrite <- !app_assoc. reflexivity.
            ++ simpl in Hn. lia.
@@ -110,32 +143,32 @@ Proof.
 Qed.
 
 (* ---- the first loop ---- *)
-Lemma unescape_first_spec : forall pe n it off, length it <= n ->
-  match unescape_first it off with
-  | None => map_escapes pe it = it
+Lemma unescape_first_spec : forall kw pe n it off, length it <= n ->
+  match unescape_first kw it off with
+  | None => map_escapes kw pe it = it
   | Some (i, s, j, c2, it2, off2) =>
       exists m, it = m ++ [c_bsl; c2] ++ it2 /\ s = c2 :: it2 /\ i = off + byte_len m /\ j = i + 1 /\
                 off2 = j + len_utf8 c2 /\
-                map_escapes pe it = m ++ esc_image pe c2 it2 ++ map_escapes pe it2 /\
+                map_escapes kw pe it = m ++ esc_image kw pe c2 it2 ++ map_escapes kw pe it2 /\
                 dangling it = dangling it2
   end.
 Proof.
-  intros pe n. induction n as [|n IH]; intros it off Hn.
+  intros kw pe n. induction n as [|n IH]; intros it off Hn.
   - destruct it; [reflexivity|simpl in Hn; lia].
   - destruct it as [|c it1]; [reflexivity|].
     cbn [unescape_first]. destruct (c =? c_bsl)%N eqn:Ec.
     + apply N.eqb_eq in Ec. subst c. destruct it1 as [|c2 it2]; [reflexivity|].
-      destruct (negb (is_meta_character c2 || lex_esc_literal (c2 :: it2))) eqn:Ek.
+      destruct (negb (is_meta_character c2 || lex_esc_literal (c2 :: it2) || ws_kept kw c2)) eqn:Ek.
       * exists []. simpl. repeat split; auto; lia.
       * specialize (IH it2 (off + 1 + len_utf8 c2)).
         assert (Hl : length it2 <= n) by (simpl in Hn; lia). specialize (IH Hl).
         apply negb_false_iff in Ek.
         assert (Hb : (c2 =? c_b)%N = false).
         { destruct (c2 =? c_b)%N eqn:Eb; [|reflexivity]. apply N.eqb_eq in Eb. subst c2.
-          simpl in Ek. discriminate. }
-        assert (Himg : esc_image pe c2 it2 = [c_bsl; c2]).
-        { unfold esc_image. rewrite Hb. rewrite Ek. reflexivity. }
-        destruct (unescape_first it2 (off + 1 + len_utf8 c2)) as [[[[[[i s] j] c3] it3] off3]|].
+          destruct kw; simpl in Ek; discriminate. }
+        assert (Himg : esc_image kw pe c2 it2 = [c_bsl; c2]).
+        { rewrite esc_image_eq. unfold esc_image_op. rewrite Hb. rewrite Ek. reflexivity. }
+        destruct (unescape_first kw it2 (off + 1 + len_utf8 c2)) as [[[[[[i s] j] c3] it3] off3]|].
         -- destruct IH as [m [Hit [Hs [Hi [Hj [Ho [Hm Hd]]]]]]].
            exists (c_bsl :: c2 :: m). subst it2. repeat split; auto.
            ++ cbn [byte_len]. rewrite len_bsl. lia.
@@ -143,7 +176,7 @@ Proof.
         -- rewrite map_escapes_pair. rewrite Himg. rewrite IH. reflexivity.
     + specialize (IH it1 (off + len_utf8 c)).
       assert (Hl : length it1 <= n) by (simpl in Hn; lia). specialize (IH Hl).
-      destruct (unescape_first it1 (off + len_utf8 c)) as [[[[[[i s] j] c3] it3] off3]|].
+      destruct (unescape_first kw it1 (off + len_utf8 c)) as [[[[[[i s] j] c3] it3] off3]|].
       * destruct IH as [m [Hit [Hs [Hi [Hj [Ho [Hm Hd]]]]]]].
         exists (c :: m). subst it1. repeat split; auto.
         -- cbn [byte_len]. lia.
@@ -152,23 +185,23 @@ Proof.
       * rewrite map_escapes_plain by assumption. rewrite IH. reflexivity.
 Qed.
 
-Lemma unescape_gen_spec : forall fixd pe re,
-  match unescape_gen fixd re pe with
-  | Done r => fixd = true \/ dangling re = false -> r = map_escapes pe re
+Lemma unescape_gen_spec : forall fixd kw pe re,
+  match unescape_gen fixd kw re pe with
+  | Done r => fixd = true \/ dangling re = false -> r = map_escapes kw pe re
   | _ => False
   end.
 Proof.
-  intros fixd pe re. unfold unescape_gen.
-  pose proof (unescape_first_spec pe (length re) re 0 (le_n _)) as H.
-  destruct (unescape_first re 0) as [[[[[[i s] j] c2] it2] off2]|].
+  intros fixd kw pe re. unfold unescape_gen.
+  pose proof (unescape_first_spec kw pe (length re) re 0 (le_n _)) as H.
+  destruct (unescape_first kw re 0) as [[[[[[i s] j] c2] it2] off2]|].
   - destruct H as [m [Hre [Hs [Hi [Hj [Ho [Hm Hd]]]]]]]. subst s i j off2. cbn [plus].
-    pose proof (unescape_step_spec pe re [] m c2 it2 [] Hre) as Hst.
+    pose proof (unescape_step_spec kw pe re [] m c2 it2 [] Hre) as Hst.
     cbn [app byte_len plus] in Hst. rewrite Hst. cbn [obind fst snd].
-    pose proof (unescape_rest_spec fixd pe re (length it2) it2 (m ++ [c_bsl; c2]) [] (m ++ esc_image pe c2 it2)
+    pose proof (unescape_rest_spec fixd kw pe re (length it2) it2 (m ++ [c_bsl; c2]) [] (m ++ esc_image kw pe c2 it2)
                   (le_n _)) as Hr.
     replace (byte_len m + 1 + len_utf8 c2) with (byte_len ((m ++ [c_bsl; c2]) ++ []))
       by (rewrite !byte_len_app; cbn [byte_len]; rewrite len_bsl; lia).
-    destruct (unescape_rest fixd re it2 (byte_len ((m ++ [c_bsl; c2]) ++ [])) (m ++ esc_image pe c2 it2)
+    destruct (unescape_rest fixd kw re it2 (byte_len ((m ++ [c_bsl; c2]) ++ [])) (m ++ esc_image kw pe c2 it2)
                 (byte_len (m ++ [c_bsl; c2])) pe) as [r| |].
     + intros Hx. rewrite Hr.
       * rewrite Hm. cbn [app]. rewrite <- !app_assoc. reflexivity.
@@ -183,20 +216,23 @@ Qed.
 Lemma unescape_spec : unescape_spec_stmt.
 Proof.
   intros pe re Hd. unfold unescape.
-  pose proof (unescape_gen_spec false pe re) as H.
-  destruct (unescape_gen false re pe) as [r| |]; try contradiction. f_equal. apply H. right. exact Hd.
+  pose proof (unescape_gen_spec false false pe re) as H.
+  destruct (unescape_gen false false re pe) as [r| |]; try contradiction. f_equal. apply H. right. exact Hd.
+Qed.
+
+Lemma unescape_iw_spec : unescape_iw_spec_stmt.
+Proof.
+  intros iw pe re. pose proof (unescape_gen_spec true iw pe re) as H.
+  destruct (unescape_gen true iw re pe) as [r| |]; try contradiction. f_equal. apply H. left. reflexivity.
 Qed.
 
 Lemma unescape_fixed_spec : unescape_fixed_spec_stmt.
-Proof.
-  intros pe re. pose proof (unescape_gen_spec true pe re) as H.
-  destruct (unescape_gen true re pe) as [r| |]; try contradiction. f_equal. apply H. left. reflexivity.
-Qed.
+Proof. intros pe re. apply unescape_iw_spec. Qed.
 
 Lemma unescape_total : unescape_total_stmt.
 Proof.
-  intros fixd pe re. pose proof (unescape_gen_spec fixd pe re) as H.
-  destruct (unescape_gen fixd re pe) as [r| |]; try contradiction. exists r. reflexivity.
+  intros fixd kw pe re. pose proof (unescape_gen_spec fixd kw pe re) as H.
+  destruct (unescape_gen fixd kw re pe) as [r| |]; try contradiction. exists r. reflexivity.
 Qed.
 
 (* `\qx\` : accepted as `q` *)
@@ -204,6 +240,57 @@ Lemma unescape_dangling_refuted : unescape_dangling_refuted_stmt.
 Proof.
   exists false, [92; 113; 120; 92]%N. split; [reflexivity|].
   exists [113]%N. split; [vm_compute; reflexivity|]. vm_compute. discriminate.
+Qed.
+
+(* `a\ b` under ignore_whitespace: rewritten to `a b`, where the engine skips the blank *)
+Lemma unescape_iw_refuted : unescape_iw_refuted_stmt.
+Proof.
+  exists false, [97; 92; 32; 98]%N. split; [reflexivity|].
+  exists [97; 32; 98]%N. split; [vm_compute; reflexivity|].
+  split; [vm_compute; discriminate|]. split; reflexivity.
+Qed.
+
+Lemma lex_iw_refuted : lex_iw_refuted_stmt.
+Proof.
+  eexists. eexists.
+  split; [vm_compute; reflexivity|]. split; [vm_compute; reflexivity|].
+  split; [vm_compute; reflexivity|]. split; vm_compute; reflexivity.
+Qed.
+
+(* hexadecimal digits are not white space *)
+Lemma hex_digit_not_ws : forall d, (d <? 16)%N = true -> is_rx_ws (hex_digit d) = false.
+Proof.
+  intros d Hd. apply N.ltb_lt in Hd.
+  assert (H : forallb (fun k => negb (is_rx_ws (hex_digit (N.of_nat k)))) (seq 0 16) = true) by reflexivity.
+  rewrite forallb_forall in H. specialize (H (N.to_nat d)). rewrite N2Nat.id in H.
+  apply negb_true_iff. apply H. apply in_seq. lia.
+Qed.
+
+Lemma hex_go_not_ws : forall fuel n acc, forallb (fun d => negb (is_rx_ws d)) acc = true ->
+  forallb (fun d => negb (is_rx_ws d)) (hex_go fuel n acc) = true.
+Proof.
+  induction fuel as [|fuel IH]; intros n acc Ha; [exact Ha|].
+  cbn [hex_go].
+  assert (Hacc : forallb (fun d => negb (is_rx_ws d)) (hex_digit (n mod 16) :: acc) = true).
+  { cbn [forallb]. rewrite hex_digit_not_ws; [exact Ha|]. apply N.ltb_lt. apply N.mod_lt. discriminate. }
+  destruct (n / 16 =? 0)%N; [exact Hacc|]. apply IH. exact Hacc.
+Qed.
+
+Lemma esc_image_cases : esc_image_cases_stmt.
+Proof.
+  split; [|split].
+  - intros iw pe c rest Hb Hl Hr. unfold esc_image. rewrite Hb, Hl, Hr. reflexivity.
+  - intros iw pe c rest Hb Hr. unfold esc_image. rewrite Hb, Hr.
+    destruct (lex_special c rest); [eexists; split; [reflexivity|left; reflexivity]|].
+    unfold rx_escape. destruct (c <? 128)%N; [eexists; split; [reflexivity|left; reflexivity]|].
+    eexists. split; [reflexivity|]. right. cbn [app forallb]. cbn [forallb negb is_rx_ws].
+    change (forallb (fun d => negb (is_rx_ws d)) (hex_upper c ++ [125]%N) = true).
+    rewrite forallb_app. unfold hex_upper. rewrite hex_go_not_ws by reflexivity. reflexivity.
+  - intros pe c rest. unfold esc_image, lex_special, rx_special. cbn [andb]. rewrite orb_false_r.
+    destruct (c =? c_b)%N; [reflexivity|].
+    destruct (lex_esc_literal (c :: rest)); [rewrite orb_true_r; reflexivity|]. rewrite orb_false_r.
+    destruct (is_meta_character c) eqn:Em; [|reflexivity].
+    unfold rx_escape. rewrite (meta_ascii c Em). reflexivity.
 Qed.
 
 (* ---- trim_end_unescaped ---- *)
